@@ -471,6 +471,14 @@ func runnerStateWriteOnly(r *an.Run, m *runModel) {
 					written[fieldNameOf(fa)] = true
 				}
 			}
+			// a map held in a field of the runner is written through the field's value (r.broken[c] = true)
+			if mu, ok := in.(*ssa.MapUpdate); ok {
+				if ld, ok := mu.Map.(*ssa.UnOp); ok {
+					if fa, ok := ld.X.(*ssa.FieldAddr); ok && isRunnerPtr(fa.X.Type()) {
+						written[fieldNameOf(fa)] = true
+					}
+				}
+			}
 		}
 	}
 	onlyAppendedBack := func(ld *ssa.UnOp, field string) bool {
